@@ -412,10 +412,15 @@ def check_stero_from_geometry(prog: Program, res: Result) -> None:
     n = 0
     for c in ast.walk(fi.node):
         if isinstance(c, ast.Call) and call_name(c) in (
-                "atom_stereo_from_coords", "_planar_bond_from_coords") and \
-                len(c.args) == 2:
+                "atom_stereo_from_coords", "_planar_bond_from_coords"):
+            b_ = prog.bound_args(c)
+            if b_ is not None and {"atoms", "coords"} <= set(b_):
+                ids, co = b_["atoms"], b_["coords"]
+            elif len(c.args) == 2:
+                ids, co = c.args
+            else:
+                continue
             n += 1
-            ids, co = c.args
             inst = f"stero_from_geometry: {call_name(c)}: coordinates of exactly the atoms passed"
             m = None
             if isinstance(co, ast.Call) and isinstance(co.func, ast.Attribute) \
